@@ -242,3 +242,25 @@ def _inproc_run(mod, args):
         return idx, acc.strip(), None, time.time() - t0
     except BaseException:
         return idx, None, traceback.format_exc(), time.time() - t0
+
+
+class time_limit:
+    """per-call watchdog (signal based, main thread of a worker): raises TimeoutError inside the block."""
+
+    def __init__(self, seconds):
+        self.seconds = seconds
+
+    def __enter__(self):
+        import signal
+
+        def handler(signum, frame):
+            raise TimeoutError("no termination within %.1f s" % self.seconds)
+        self.old = signal.signal(signal.SIGALRM, handler)
+        signal.setitimer(signal.ITIMER_REAL, self.seconds)
+        return self
+
+    def __exit__(self, *exc):
+        import signal
+        signal.setitimer(signal.ITIMER_REAL, 0)
+        signal.signal(signal.SIGALRM, self.old)
+        return False
